@@ -8,6 +8,7 @@ import (
 	"os/exec"
 	"strings"
 	"sync"
+	"sync/atomic"
 	"time"
 
 	"verifharness/internal/lineproto"
@@ -144,8 +145,23 @@ func (d *implDriver) run(ops []string) []string {
 			flush = true
 		}
 	}
+	// an op on which the child died is run once more, alone in a fresh child: a decoder that kills
+	// the process does so again; a child that fell victim to the machine (memory pressure from
+	// whatever else is running, a stalled scheduler) does not
+	for i, a := range out {
+		if a != "crash" {
+			continue
+		}
+		if again := d.runOnce(ops[i:i+1], true); len(again) == 1 {
+			out[i] = again[0]
+			crashesNotReproduced.Add(1)
+		}
+	}
 	return out
 }
+
+// crashesNotReproduced counts ops whose child died in a batch and which ran to an answer alone.
+var crashesNotReproduced atomic.Int64
 
 // runSharded splits ops over several children running in parallel.
 func (d *implDriver) runSharded(ops []string, shards int) []string {
